@@ -458,3 +458,95 @@ def ckpt_restore(job):
     return {"obs": obs, "dir_before": before, "dir_after_restore": after_restore, "dir_after": _dir_listing(src),
             "new_dir": _dir_listing(newdir) if newdir else None, "config": _config_dict(solver),
             "problem_name": solver.problem.name, "n_states": int(solver.problem.n_states)}
+
+
+# ----------------------------------------------------------------------------- C20
+PROBLEM_CLASSES = {
+    "forest": ("mdpax.problems.forest", "Forest", "ForestConfig"),
+    "de_moor": ("mdpax.problems.perishable_inventory.de_moor_single_product", "DeMoorSingleProductPerishable", "DeMoorSingleProductPerishableConfig"),
+    "hendrix": ("mdpax.problems.perishable_inventory.hendrix_two_product", "HendrixTwoProductPerishable", "HendrixTwoProductPerishableConfig"),
+    "mirjalili": ("mdpax.problems.perishable_inventory.mirjalili_platelet", "MirjaliliPlateletPerishable", "MirjaliliPlateletPerishableConfig"),
+}
+
+
+def _tuplify(params):
+    return {k: (tuple(v) if isinstance(v, list) else v) for k, v in params.items()}
+
+
+@handler("c20_construct")
+def c20_construct(job):
+    """FRESH process, x64 NOT pre-enabled: construct by one of three routes in one of two orders, optionally solve."""
+    import importlib
+    import numpy as np
+    _quiet()
+    import mdpax.solvers as ms
+    name = job["solver"]
+    scls = getattr(ms, SOLVERS[name])
+    mod, pcls_name, pcfg_name = PROBLEM_CLASSES[job["problem"]["kind"]]
+    pm = importlib.import_module(mod)
+    pcls, pcfg = getattr(pm, pcls_name), getattr(pm, pcfg_name)
+    pparams = _tuplify(job["problem"].get("params", {}))
+    cfg = dict(job.get("config", {}))
+    cfg.setdefault("verbose", 0)
+    out = {"route": job["route"], "order": job.get("order")}
+    try:
+        if job.get("problem_only"):
+            pcls(**pparams)
+            return dict(out, ok=True)
+        if job.get("order") == "solver_first":
+            from mdpax.problems import Forest
+            scls(problem=Forest(S=3), **({"gamma": 1.0} if name == "rvi" else {}), **({"period": 2} if name == "pvi" else {}), verbose=0)
+        if job["route"] == "kwargs":
+            solver = scls(problem=pcls(**pparams), **cfg)
+        elif job["route"] == "config_only":
+            solver = scls(config=scls.Config(problem=pcfg(**pparams), **cfg))
+        elif job["route"] == "yaml":
+            from hydra.utils import instantiate
+            from omegaconf import OmegaConf
+            first = scls(problem=pcls(**pparams), **cfg)
+            path = os.path.join(job["tmpdir"], "config.yaml")
+            os.makedirs(job["tmpdir"], exist_ok=True)
+            OmegaConf.save(first.config, path)
+            solver = instantiate(OmegaConf.load(path))
+        else:
+            raise ValueError(job["route"])
+    except Exception as e:  # noqa: BLE001
+        return dict(out, raised=type(e).__name__, message=str(e)[:300], stage="construct")
+    out["constructed"] = True
+    out["conv_threshold"] = str(float(solver.conv_threshold))
+    if job.get("solve"):
+        try:
+            st = solver.solve(max_iterations=int(job["solve"]))
+        except Exception as e:  # noqa: BLE001
+            return dict(out, raised=type(e).__name__, message=str(e)[:300], stage="solve")
+        out.update({"values": _fx(st.values), "dtype": str(np.asarray(st.values).dtype), "iteration": int(st.info.iteration),
+                    "policy": _canon_policy(solver.problem, st.policy), "returned": True})
+    return dict(out, ok=True)
+
+
+# ----------------------------------------------------------------------------- shipped problems: complete tables (C13-C16)
+@handler("problem_tables")
+def problem_tables(job):
+    """Complete state x action x event tables of a shipped problem through its PUBLIC functions; saved as .npz."""
+    _quiet()
+    import jax
+    import jax.numpy as jnp
+    import numpy as np
+    if job.get("x64", True):
+        jax.config.update("jax_enable_x64", True)
+    problem = make_problem(job["problem"])
+    S, A, E = problem.state_space, problem.action_space, problem.random_event_space
+    vt = jax.jit(jax.vmap(jax.vmap(jax.vmap(problem.transition, in_axes=(None, None, 0)), in_axes=(None, 0, None)), in_axes=(0, None, None)))
+    vp = jax.jit(jax.vmap(jax.vmap(jax.vmap(problem.random_event_probability, in_axes=(None, None, 0)), in_axes=(None, 0, None)), in_axes=(0, None, None)))
+    ns, rw = vt(S, A, E)
+    pr = vp(S, A, E)
+    idx = jax.jit(jax.vmap(jax.vmap(jax.vmap(problem.state_to_index))))(ns)
+    own = jax.vmap(problem.state_to_index)(S)
+    iv = jax.vmap(problem.initial_value)(S)
+    nS, nA, nE = len(S), len(A), len(E)
+    np.savez(job["out"], states=np.asarray(S), actions=np.asarray(A), events=np.asarray(E),
+             next=np.asarray(ns).reshape(nS, nA, nE, -1), reward=np.asarray(rw, dtype=np.float64).reshape(nS, nA, nE),
+             prob=np.asarray(pr, dtype=np.float64).reshape(nS, nA, nE), idx=np.asarray(idx).reshape(nS, nA, nE),
+             own=np.asarray(own).reshape(-1), init=np.asarray(iv, dtype=np.float64).reshape(-1))
+    return {"nS": nS, "nA": nA, "nE": nE, "prob_dtype": str(np.asarray(pr).dtype), "name": problem.name,
+            "state_dtype": str(np.asarray(S).dtype)}
